@@ -93,6 +93,7 @@ typedef struct console {
 
 	const console_cmd_t *cmd;
 	pt_t pt;
+	uint16_t evali; //!< progress of console_eval() through its string
 } console_t;
 
 /*!
